@@ -106,6 +106,40 @@ HARNESSES = (
     [_cond('chr_m4', 'c', 'M', 4, 7, p, d, tiers=_T) for d in range(4) for p in range(7)]      # open, elif/else, marker, endif: 42 files
 )
 
+# ---- symbolic directive scripts (harness/c09_sym.cxx) ----------------------------------------------------------------
+_OPPLUS = '_ZStplIcSt11char_traitsIcESaIcEENSt7__cxx1112basic_stringIT_T0_T1_EEPKS5_RKS8_'
+_WARN = '_ZNK15CPPPreprocessor7warningERK' + _S + _LOC
+_HANDLERS = ['_ZN15CPPPreprocessor19handle_if_directiveERK' + _S + _LOC,
+             '_ZN15CPPPreprocessor22handle_ifdef_directiveERK' + _S + _LOC,
+             '_ZN15CPPPreprocessor23handle_ifndef_directiveERK' + _S + _LOC]
+_BOOK = ['_ZSteqIcSt11char_traitsIcESaIcEEbRKNSt7__cxx1112basic_stringIT_T0_T1_EEPKS5_', '_ZN10cppyyltypeC2Ev', '_ZN10cppyyltypeD2Ev',
+         '_ZN7CPPFileD2Ev', '_ZN7CPPFileaSEOS_', '_ZNK15CPPPreprocessor8get_fileEv']
+_SYM_TUS = ['src/cppparser/cppPreprocessor.cxx', 'src/cppparser/cppExpressionParser.cxx', 'src/cppparser/cppExpression.cxx',
+            'src/cppparser/cppDeclaration.cxx', 'src/cppparser/cppFile.cxx', 'src/dtoolutil/filename.cxx']
+# The TUs are lowered WITHOUT LLVM's optimisation passes: LoopSimplify splits the one `while` of skip_false_if_block
+# (two paths back to its head) into an outer and an inner loop whose back edges are not nested in block order; CBMC then
+# never resets the outer counter and reports a bogus unwinding failure as soon as the read position is symbolic.  The
+# unoptimised IR has one loop and properly nested if/else diamonds (path guards collapse at every join).
+_SYM_TUFLAGS = ['-fno-inline', '-Xclang', '-disable-llvm-passes']
+_CLS = {'any': 100, 'openT': 101, 'openF': 102, 'text': 103, 'open': 104, 'elif': 105, 'close': 106, 'notopen': 107}
+
+
+def _sym(name, nl, dmax, p0='any', p1='any', p2='any', step=1, start=-1, pend=-1, tiers=('quick', 'thorough'), cap=_CAP):
+    defs = {'MODE': 0, 'NL': nl, 'DMAX': dmax, 'STEP': step, 'START': start, 'PEND': pend, 'P0': _CLS.get(p0, p0), 'P1': _CLS.get(p1, p1), 'P2': _CLS.get(p2, p2)}
+    us = dict(_STR_US)
+    b = {'defs': defs, 'unwind': 2 * nl + 4, 'unwindset': us, 'cap': cap}
+    return {'id': 'c09_sym_' + name, 'property': 'C09', 'src': 'c09_sym.cxx', 'entry': 'harness_c09_sym',
+            'tus': _SYM_TUS, 'skip_ctors': ['cppPreprocessor.cxx'], 'tuflags': _SYM_TUFLAGS,
+            'cut': _COND_CUT[:5] + _COND_CUT[9:] + _HANDLERS + _UNREACHED + [_OPPLUS, _WARN] + _BOOK,
+            'cbmc_flags': ['--no-pointer-check', '--max-field-sensitivity-array-size', '128'], 'object_bits': 16,
+            'desc': 'REAL process_directive + skip_false_if_block over a SYMBOLIC script of %d lines' % nl,
+            'domain': 'TODO', 'oracle': 'TODO',
+            'bounds': {'quick': b, 'thorough': b}, 'tiers': tiers}
+
+
+HARNESSES = HARNESSES + [_sym('d83', 8, 3, cap=500), _sym('d83p', 8, 3, cap=500)]
+HARNESSES[-1]['cbmc_flags'] = HARNESSES[-1]['cbmc_flags'][1:]
+
 PROPERTY_INFO = {'C09': {'level': 'model_checking',
          'explanation': 'bounded symbolic execution (CBMC) of the real conditional-inclusion code of cppPreprocessor.cxx',
          'outside': 'controlling expressions other than the literals 0 and 1 (expression evaluation is C07; macro expansion inside '
